@@ -1195,7 +1195,9 @@ func (e *Engine) applyCallbackPure(fv Val, name string, args []Val, se *SpecEnv)
 	if fv.Fn != nil && fv.Fn.Sym != "" {
 		sym = fv.Fn.Sym
 	} else if fv.Fn != nil && fv.Fn.Fn != nil {
-		panic(unsupported("spec application of a concrete closure %s", name))
+		// a concrete side-effect free function (e.g. typ.Less passed as a comparator): evaluate its body symbolically
+		// and join the paths into one conditional value
+		return e.evalConcreteFn(fv, name, args, se)
 	}
 	var flat []Term
 	flat = append(flat, fv.L[0])
@@ -1469,4 +1471,43 @@ func (e *Engine) assertedIfaceWith(method string) (types.Type, *types.Signature)
 		}
 	}
 	return nil, nil
+}
+
+// evalConcreteFn: the value a concrete, side-effect free function returns for symbolic arguments (all paths joined by
+// their path conditions). Obligations inside the body are not generated (the state is marked dead): this is a
+// specification-level evaluation.
+func (e *Engine) evalConcreteFn(fv Val, name string, args []Val, se *SpecEnv) Val {
+	fn := fv.Fn.Fn
+	st := se.st.Clone()
+	st.dead = true
+	base := len(st.pc)
+	type outcome struct {
+		cond Term
+		res  Val
+	}
+	var outs []outcome
+	env := fv.Fn.Env
+	if env == nil {
+		env = e.calleeEnv(fn, se.env)
+	}
+	savedPaths := e.paths
+	e.execFunction(st, fn, env, args, fv.Fn.Bindings, &Frame{depth: 2, fn: nil, env: se.env}, nil, func(s2 *State, results []Val) {
+		if len(results) != 1 {
+			panic(unsupported("spec application of %s: not a single-result function", name))
+		}
+		outs = append(outs, outcome{And(s2.pc[base:]...), results[0]})
+	})
+	e.paths = savedPaths
+	if len(outs) == 0 {
+		panic(unsupported("spec application of %s: no returning path", name))
+	}
+	res := outs[len(outs)-1].res
+	for i := len(outs) - 2; i >= 0; i-- {
+		n := Val{T: res.T, L: make([]Term, len(res.L))}
+		for j := range res.L {
+			n.L[j] = Ite(outs[i].cond, outs[i].res.L[j], res.L[j])
+		}
+		res = n
+	}
+	return res
 }
